@@ -507,7 +507,7 @@ int cg_open(const char *filename, int mode, int *fn)
         cg->mode = CG_MODE_CLOSED;
         n_open--;
         if (n_open == 0) {
-            file_number_offset = n_cgns_files;
+            file_number_offset += n_cgns_files;
             free (cgns_files);
             cg = NULL;
             cgns_files = NULL;
@@ -871,7 +871,7 @@ int cg_close(int fn)
     /* if all files are closed, free up memory */
 
     if (n_open == 0) {
-      file_number_offset = n_cgns_files;
+      file_number_offset += n_cgns_files;
       free (cgns_files);
       cg = NULL;
       cgns_files = NULL;
